@@ -152,6 +152,13 @@ def evaluate(cfg):
             got = dn.evaluate_deriv_density(np.array(order), gam, g, pts, deriv_type=bk, **kw)
             o.call()
             o.cmp("evaluate_deriv_density %s %s" % (order, bk), got, ref, TOL, mag, key="deriv_density")
+    # --- equivalent representations of the arguments (transposed view of the symmetric matrix, strided points)
+    pts2 = np.repeat(pts, 2, axis=0)[::2]
+    o.cmp("density with the matrix given as its transposed view and strided points",
+          dn.evaluate_deriv_density(np.array([1, 0, 1]), gam.T, g, pts2, **kw),
+          dn.evaluate_deriv_density(np.array([1, 0, 1]), gam, g, pts, **kw), 1e-12, np.abs(R(er.deriv_density((1, 0, 1)))[1]) + 1e-300,
+          key="argument-representation")
+    o.call(2)
     # --- gradient / laplacian / hessian
     grad = [R(er.RHO.d(i)) for i in range(3)]
     lap, lmag = R(er.laplacian())
